@@ -56,7 +56,7 @@ def run(ck):
         ck.tlc_model("ACL", "ACL_thorough.cfg" if thorough else "ACL_quick.cfg", timeout=2400)
     ck.setcov("exhaustive", True)
     ck.setcov("constants", "all 7 ops, full product of bearer states x tables" if thorough
-              else "ops get/put/delete, slice A (all variants/roles/bits/F/S) + slice B (bearer x tables)")
+              else "ops get/put, slice A (all variants/roles/bits/F/S) + slice B (bearer x tables)")
     binp = ck.gobuild("acl")
     recs_path = os.path.join(ck.tmp, "c28.ndjson")
     if ck.replay:
